@@ -114,15 +114,24 @@ class Check(PropertyCheck):
                   "has id and question section of a query the client sent fires no hook and sends nothing; the state is untouched "
                   "except that the de-framer advances exactly as for solicited data), `upstream_reply_cases` (handled iff the flow "
                   "table holds a flow with that id and question section — first reply and duplicate alike), "
-                  "`reply_with_other_question_section_ignored` (whole question lists are compared: count, order, name, type, class), `buffered_server_segment_commutes`/`split_frame_around_query` (an upstream segment that completes no frame "
+                  "`reply_with_other_question_section_ignored` (whole question lists are compared: count, order, name, type, class), `error_hook_then_servfail` / `failed_connect_then_error_hook` / `no_upstream_request_then_response_or_error` (EVERY history: each "
+                  "failed or killed connect is directly followed by dns_error, each dns_request without upstream by dns_response or "
+                  "dns_error, each dns_error by the SERVFAIL of the flow's decoded query, which always encodes), `layer_never_raises` "
+                  "(no exception in any history if the addons' responses encode), `bad_length_closes_history`/`_server_history` (no "
+                  "`crashed` alternative), `async_equals_sequential`/`async_quiescent`/`async_reply_answers_query`/"
+                  "`async_flow_has_query` (transcription of Layer.handle_event/__process/__continue: for EVERY schedule of arrivals "
+                  "and hook completions, emitted + owed = the sequential run; tied per arrival / per completion to the real Layer "
+                  "with every dns hook deferred), `buffered_server_segment_commutes`/`split_frame_around_query` (an upstream segment that completes no frame "
                   "commutes with the following client segment; a frame split around a client query = delivered whole after it). "
                   "The model is tied differentially to the real DNSLayer driven through harness/common/world.py.")
     level_note = ("trusted: Lean kernel; hand-written model tied differentially (per event: every dns hook with the flow's "
                   "request/response/error as the addon sees them, bytes sent to client and server, connect attempts and results, "
                   "closes, exceptions). The idna codec is a model parameter instantiated per case from the real codec. Client "
                   "and server use the same transport. Addons are modelled by four actions per hook; they do not replace "
-                  "flow.request. Events are handled one after the other (Layer.handle_event queues events while a hook or "
-                  "connect is pending; exercised on the code by the burst variant with deferred hooks, not proved). The "
+                  "flow.request. The pause-and-queue mechanism of Layer.handle_event is modelled (Model/C27_Async.lean) with the "
+                  "suspended generator represented by the output it will still emit, cut after every hook (faithful because a paused "
+                  "layer's state is touched by nobody else); OpenConnection is answered synchronously by the world, so only hooks "
+                  "suspend in the tie. The "
                   "interleaving theorem keeps the relative order of client and server bytes at every change of direction "
                   "(moving a reply in front of its query is a different schedule, not a different segmentation). What the client decodes from forwarded upstream replies is "
                   "C26's theorem; here messages are compared before `pack` (`reply_is_packed` links them to the bytes). "
@@ -158,7 +167,9 @@ class Check(PropertyCheck):
                     "mitmproxy.proxy.layers.dns:DNSLayer._unpack_messages", "mitmproxy.proxy.layers.dns:DNSLayer.state_query",
                     "mitmproxy.proxy.layers.dns:DNSLayer.state_done", "mitmproxy.proxy.layers.dns:DNSLayer.__init__",
                     "mitmproxy.proxy.layers.dns:pack_message", "mitmproxy.dns:DNSMessage.fail",
-                    "mitmproxy.dns:DNSMessage.unpack", "mitmproxy.dns:DNSMessage.packed"]
+                    "mitmproxy.dns:DNSMessage.unpack", "mitmproxy.dns:DNSMessage.packed",
+                    "mitmproxy.proxy.layer:Layer.handle_event", "mitmproxy.proxy.layer:Layer._Layer__process",
+                    "mitmproxy.proxy.layer:Layer._Layer__continue"]
     trusted_base = C25.Check.trusted_base + ["harness/common/world.py as the stand-in for proxy/server.py's command interpreter",
                                              "mitmproxy.proxy.layer.Layer.handle_event queues events while a command is pending"]
     parallel = False
@@ -481,8 +492,11 @@ class Check(PropertyCheck):
     def _rm(m):
         return "none" if m is None else "[" + D.render_msg(m) + "]"
 
-    def _run(self, case, events, burst=False):
-        """-> (per-event item lists, delivered flags, notes)"""
+    def _run(self, case, events, burst=False, steps=None):
+        """-> (per-event item lists, delivered flags, notes).
+        steps (a list to fill): asynchronous mode for the tie with the model of Layer.handle_event — EVERY dns hook is deferred,
+        consecutive client segments arrive back to back, then the pending hooks are completed one at a time; each arrival and
+        each completion is recorded as (driver line, items emitted by that very call)."""
         ctx = self._ctx(case["transport"], case["upstream"])
         acts, conns = list(case["acts"]), list(case["conns"])
         rendered, applied, notes = {}, {}, set()
@@ -545,7 +559,7 @@ class Check(PropertyCheck):
             if burst and ev[0] == "c":
                 while j < len(events) and events[j][0] == "c": j += 1
             group = events[i:j]
-            state["defer"] = burst and len(group) > 1
+            state["defer"] = burst and (len(group) > 1 or steps is not None)
             for e in group:
                 k = e[0]
                 if k == "c": d = w.recv("client", unhx(e[1]))
@@ -554,6 +568,17 @@ class Check(PropertyCheck):
                 else: d = "server0" in w.conns and w.peer_close("server0")
                 delivered.append(bool(d))
                 if len(group) > 1: per_event.append([]); acts_at.append([])
+                if steps is not None:
+                    steps.append(("a " + " ".join(e), collect() + (["crash"] if w.errors else [])))
+                    if w.errors: return None
+            if steps is not None:
+                while w.deferred_hooks:
+                    w.resume(w.deferred_hooks[0])
+                    steps.append(("a done", collect() + (["crash"] if w.errors else [])))
+                    if w.errors: return None
+                steps.append(("a idle?", ["idle"]))
+                i = j
+                continue
             if state["defer"]:
                 state["defer"] = False
                 while w.deferred_hooks and not w.errors:
@@ -619,7 +644,10 @@ class Check(PropertyCheck):
             # Props `buffered_server_segment_commutes`: an upstream segment that completes no frame may change places with
             # the client segment that follows it
             variants["commuted"] = flat(self._run(case, events[:sw] + [events[sw + 1], events[sw]] + events[sw + 2:])[0])
-        obs = {"given": given, "delivered": delivered, "notes": notes, "variants": variants, "acts_at": acts_at}
+        steps = []
+        self._run(case, events, burst=True, steps=steps)
+        obs = {"given": given, "delivered": delivered, "notes": notes, "variants": variants, "acts_at": acts_at,
+               "async": [[ln, it] for ln, it in steps]}
         self._last = (json.dumps(case, sort_keys=True), obs)
         return obs
 
@@ -825,13 +853,16 @@ class Check(PropertyCheck):
                  f"{','.join(case['acts']) or '-'} {case['conns'] or '-'}"]
         for e in case["events"]:
             lines.append(f"{e[0]} {e[1]}" if len(e) == 2 else e[0])
+        # the same schedule through the model of Layer.handle_event (Model/C27_Async.lean): every arrival and every hook
+        # completion of the asynchronous run, and whether the layer is idle after each group
+        lines += [ln for ln, _ in self._obs_for(case)["async"]]
         return lines
 
     def model_obs(self, case, replies):
         return [replies[0]] + list(replies[1:])
 
     def impl_view(self, case, obs):
-        return ["ok"] + [" | ".join(it) or "-" for it in obs["given"]]
+        return ["ok"] + [" | ".join(it) or "-" for it in obs["given"]] + [" | ".join(it) or "-" for _, it in obs["async"]]
 
     # ------------------------------------------------------------------ evidence
     def classify(self, case, obs):
